@@ -53,6 +53,27 @@ class Ctx:
         return self._la[k]
 
 
+ANCHORS = os.path.join(os.path.dirname(__file__), "anchors.json")
+
+
+def check_anchor_names(pid, ctx, ck):
+    """Local names the property's rules were found (by tools/rename_sweep.py) to depend on: if one is gone the analysis
+    refuses (exit 2) before any rule can turn the rename into a false alarm."""
+    if not os.path.exists(ANCHORS):
+        return
+    import json
+    from .rules import common
+    tab = json.load(open(ANCHORS)).get(pid, [])
+    fb = ctx.fb()
+    n = 0
+    for ent in tab:
+        fs = [f for f in fb.funcs(ent["function"], ent.get("file")) if f.ok and (ent.get("nparams") is None or len(f.params) == ent["nparams"])]
+        for f in fs[:1]:
+            common.require_names(f, ent["names"])
+            n += 1
+    ck.extra["anchored_functions"] = n
+
+
 def run(pid, tier):
     try:
         mod = importlib.import_module("iora_sa.props.%s" % pid.lower())
@@ -63,7 +84,9 @@ def run(pid, tier):
     ctx = Ctx(ck, tier)
     try:
         ctx.fb()
+        check_anchor_names(pid, ctx, ck)
         mod.run(ctx, ck)
+        facts.dump_trace()
         if tier == "thorough":
             # (a) the same rules over the assert-enabled configuration
             n0 = len(ck.rules)
